@@ -147,6 +147,10 @@ func contractKeepalive(drv int, rng *rand.Rand) (map[string]interface{}, []strin
 	}
 	cp, _ := c.payment(false)
 	mgr := balance.PayPerInterval(cp, time.Nanosecond, big.NewInt(1))
+	if !locked {
+		// a minimum balance is configured (far below anything reached here): it is looked at, it refuses nobody
+		mgr.MinBalance = big.NewInt(-1000000000)
+	}
 	var clock time.Time
 	mgr.VerifSetClock(func() time.Time { return clock })
 	p := pool.New(c.st.Store, mgr)
